@@ -122,3 +122,125 @@ PROPS['C18'] = dict(
                                    "failure kinds of wrong-typed vs invalid-handle uses are determined by construction of the workload (the library's error slot is process-global and cannot be read back reliably under concurrency)"],
     not_exhibited_by_model=["Arc reference counting and deallocation (a snapshot is a plain value in the model)", "the mutex implementation and lock poisoning after a panic inside the lock", "weak-memory effects below SeqCst, counter wrap-around"],
 )
+
+
+def ext_ffi_check(workdir, tier, seed, sh, vh):
+    """C17: build the cdylib from /repo's working tree, let the native harness prepare verifications, drive the C ABI through ctypes"""
+    import json, os, sys
+    harness = os.path.dirname(os.path.dirname(os.path.dirname(vh)))
+    rc, out, _ = sh(['cargo', 'build', '--offline', '-p', 'anoncreds'], cwd=harness, timeout=3600)
+    so = os.path.join(harness, 'target', 'debug', 'libanoncreds.so')
+    if rc != 0 or not os.path.exists(so):
+        raise RuntimeError('cdylib build failed: ' + out[-800:])
+    rc, out, _ = sh([vh, 'ffi_flows', '--seed', str(seed), '--tier', tier, '--out', '/dev/null'], cwd=harness, timeout=3600)
+    flows = [l.split(' ', 1)[1] for l in out.split('\n') if l.startswith('FFI_FLOWS_FILE ')]
+    if not flows:
+        raise RuntimeError('ffi_flows failed: ' + out[-800:])
+    table = os.path.join(os.path.dirname(harness), 'lean', 'AnonModel', 'Gen', 'ffi_table.json')
+    tool = os.path.join(os.path.dirname(harness), 'tools', 'ffi_check.py')
+    rc, out, _ = sh([sys.executable, tool, so, table, flows[0], vh] + (['--thorough'] if tier == 'thorough' else []), cwd=harness, timeout=3600)
+    try:
+        os.remove(flows[0])
+    except OSError:
+        pass
+    s = json.loads(out.strip().split('\n')[-1])
+    s['samples'] = [dict(kind='c17', dist_keys=sorted(s.get('dist', {}))[:6])]
+    return s
+
+
+PROPS['C17'] = dict(
+    lean_targets=['AnonModel.Props.C17'],
+    required_theorems=['C17_all_wrapped', 'C17_all_out_pointers_guarded', 'C17_all_result_params_checked', 'C17_no_result_functions', 'C17_from_json_template_guarded'],
+    families=[dict(name='c17', external='ext_ffi_check')],
+    default_dir='exact',
+    rule="table of all exported entry points regenerated from src/ffi/** (51 today): theorems by decide. Dynamic: for every error-code entry point, each result pointer null in turn and 9 malformed argument modes (all-empty, unknown / freed / wrong-typed handles incl. handle lists, non-UTF-8 / null strings, null list members, garbage byte buffers, huge counts), each call in a forked child (abort = signal); error slot semantics; ~70 verifications (honest and attack scenarios, both formats, with revocation) decided by the native API and repeated through the C ABI; a complete issue-present-verify flow made through the C ABI and verified by both APIs (incl. a tampered copy); create_schema and seven from_json->get_json round trips byte/JSON-identical",
+    trusted_base=TRUSTED_COMMON + ["tools/extract.py (regex/brace scanner) finds every #[no_mangle] extern fn and macro-generated entry point of src/ffi/**", "Python ctypes calling convention for by-value structs {usize,ptr} / {i64,ptr} matches the C ABI of the exported functions"],
+    not_exhibited_by_model=["'decisions equal to the native ones' is established by the cross runs only, not by a theorem", "unwinding across the boundary is excluded by catch_error (C17_all_wrapped) assuming std::panic::catch_unwind catches every panic (no abort-on-panic profile, no foreign exceptions)"],
+)
+
+
+def search_C17(lean, workdir, vh):
+    """a guard or wrapper disappeared from the table: call every entry point with each result pointer null (the dynamic matrix does exactly that)"""
+    s = ext_ffi_check(workdir, 'quick', 1, __import__('vcheck').sh, vh)
+    for of in s.get('oracle_failures', []):
+        if 'crash' in of.get('what', '') or 'accepted' in of.get('what', ''):
+            return of
+    return None
+
+# ops whose cases are self-contained (can be re-evaluated from a replay file by `vh replay`)
+UNIT_OPS = {'enc', 'norm_enc', 're', 'id', 'schema_valid', 'credreq_valid', 'q_parse', 'q_print', 'q_names', 'q_validate', 'req_validate', 'q_eval',
+            'q_selfattest_ok', 'ivl_merge', 'ivl_override', 'ivl_valid', 'ivl_fold', 'ivl_requested', 'ivl_prover', 'ivl_check_legacy', 'sl_run'}
+
+IDEALCL = ["IdealCL (Model/IdealCL.lean) stands in for anoncreds-clsignatures: a sub-proof verifies only if intact, made from a credential signed by the key of the supplied definition over exactly the schema's attributes, revealing signed values and predicates true of them; the aggregated proof binds nonce, sub-proofs, their order and the presence of each non-revocation part; link-secret responses are equal iff same secret and same blinding; non-revocation parts are silently skipped unless proof part, revocation key, registry and registry key are all present (DESIGN §4, Appendix A). Assumed, not proved; compared with the real crate on every generated scenario, tampered ones included",
+           "ghost data of sub-proofs (which credential, intact or not, link-secret session) is filled in by the scenario engine from its knowledge of how each object was built or altered"]
+SYS_RULE = " Every scenario is built by the real prover from freshly issued real credentials (6 pooled credential definitions incl. legacy-id and revocable ones, 2 holders, 12 credentials, 2 registry histories), altered as the class says, verified by the real verifier under catch_unwind, abstracted (request, verifier context, presentation + ghost data) and decided by the Lean verifier model; compared in the safety direction (implementation accepts => model accepts; exact agreement is reported as drift=0). Independent oracle per class: must-verify / must-not-verify / no panic. distinct = distinct abstract scenarios; all non-trivial (each reaches the CL verification or a specific check)."
+
+PROPS['C01'] = dict(
+    lean_targets=['AnonModel.Props.C01Legacy', 'AnonModel.Props.C01W3C'],
+    required_theorems=['C01_legacy_predicates', 'C01_legacy_attributes', 'C01_legacy_cross_request', 'C01_w3c_predicates', 'C01_w3c_attributes', 'C01_w3c_cross_request'],
+    families=[dict(name='c01')], default_dir='safety',
+    fam_theorem={'c01': 'C01_legacy_predicates / C01_legacy_attributes / C01_w3c_predicates / C01_w3c_attributes over verifyLegacy / verifyW3C'},
+    rule="an honest presentation for R0 verified against 19 single-field variations R of R0 (predicate value +1/-1/far/true-but-other, the three other operators, other/absent attribute, removed/added predicate, other/absent attribute name, name->names, added/removed referent, respelled names) for three credential kinds, both formats; 8 rewrites of the prover-controlled referent maps (revealed<->unrevealed, forged revealed entry, dropped / re-typed predicate referent, self-attested instead of revealed, index out of range, duplicate across maps); two-credential presentations with referents re-pointed at the other credential and identifiers swapped." + SYS_RULE,
+    trusted_base=TRUSTED_COMMON + IDEALCL,
+)
+PROPS['C02'] = dict(
+    lean_targets=['AnonModel.Props.C02Legacy', 'AnonModel.Props.C02W3C'],
+    required_theorems=['C02_legacy_partial', 'C02_full_claim_refuted', 'C02_refuted_no_nrp', 'C02_refuted_strip_regid', 'C02_refuted_unrevealed_interval',
+                       'C02_w3c_partial', 'C02_w3c_refuted_no_nrp', 'C02_w3c_refuted_strip_regid', 'C02_w3c_window'],
+    families=[dict(name='c02')], default_dir='safety',
+    fam_theorem={'c02': 'C02_legacy_partial / C02_w3c_partial (+ _refuted witnesses for F3 F4 F5)'},
+    rule="registry history (list0 all valid, list1 two indices revoked, list2 one re-issued) x interval placement (global; local on revealed / unrevealed / group / predicate referent) x holder behaviour (fresh state at a list where valid / revoked / re-issued, state of an earlier list, no state) x post-hoc edits (rev_reg_id and timestamp stripped, timestamp of a list at which the credential was valid, unlisted timestamp, timestamp stripped, revealed->unrevealed), both formats." + SYS_RULE + " Oracle: a credential revoked at the list the presentation names (or naming none) must not be accepted; acceptances are classified by (format, non-revocation part present?, how the interval check was passed) and matched against known_findings.json (F3 F4 F5 = the three no-nrp classes per format); any other class is a violation",
+    trusted_base=TRUSTED_COMMON + IDEALCL + SL_BASE,
+    assumptions=["the full property is false of the code (F3 F4 F5: the verifier never demands the non-revocation part): _partial + _refuted theorems, known findings"],
+)
+PROPS['C03'] = dict(
+    lean_targets=['AnonModel.Props.C03Legacy', 'AnonModel.Props.C03W3C'],
+    required_theorems=['C03_legacy_revealed', 'C03_legacy_group', 'C03_legacy_altered_rejected', 'C03_w3c_issuer', 'C03_w3c_subject', 'C03_w3c_altered_rejected', 'C03_w3c_added_rejected'],
+    families=[dict(name='c03')], default_dir='safety',
+    fam_theorem={'c03': 'C03_legacy_revealed / C03_legacy_group / C03_w3c_subject / C03_w3c_issuer'},
+    rule="honest presentation + post-hoc edits: legacy — encoded changed / perturbed / taken from another attribute, raw only (not claimed: judged by the model), zero-padded and signed respellings of a numeric encoding, group member changed / swapped / added / removed / renamed, duplicate requested name with an uncovered member added (F20), consistent forgery incl. the sub-proof's own revealed value; W3C — subject value changed / added (known and unknown attribute) / number as string / zero-padded / swapped / removed / key respelled / boolean marker added, issuer, verificationMethod, proof-value cred_def_id and schema_id, proof purpose; two-credential: subjects swapped between credentials, credentials reordered." + SYS_RULE,
+    trusted_base=TRUSTED_COMMON + IDEALCL,
+)
+PROPS['C05'] = dict(
+    lean_targets=['AnonModel.Props.C05Legacy', 'AnonModel.Props.C05W3C'],
+    required_theorems=['C05_legacy', 'C05_other_nonce_rejected', 'C05_two_link_secrets_rejected', 'C05_altered_subproof_rejected', 'C05_altered_aggregate_rejected',
+                       'C05_wrong_definition_rejected', 'C05_spliced_rejected', 'C05_w3c', 'C05_w3c_two_link_secrets_rejected'],
+    families=[dict(name='c05')], default_dir='safety',
+    fam_theorem={'c05': 'C05_legacy / C05_w3c and their rejection corollaries'},
+    rule="two-credential honest presentation x {other nonce (+1, unrelated, same value with leading zero), another credential definition under the same id (same and other schema), sub-proofs swapped (alone and with identifiers/indices following), sub-proof / aggregated proof spliced in from a second presentation of the same credentials, one decimal digit changed in a numeric field of a sub-proof or of the aggregated proof (10 random fields in quick, all in thorough) and a byte of c_list, the honest prover API with another link secret, an adversarial prover built on the public CL proof builder combining credentials of two holders with and without registering the common attribute}; W3C: nonce, swapped definition, perturbed sub-proof numbers inside the proof value." + SYS_RULE,
+    trusted_base=TRUSTED_COMMON + IDEALCL,
+)
+PROPS['C06'] = dict(
+    lean_targets=['AnonModel.Props.C06Eval', 'AnonModel.Props.C06Legacy', 'AnonModel.Props.C06W3C'],
+    required_theorems=['C06_eval_iff_sat', 'C06_leaf_spec', 'C06_unsupported_false', 'C06_legacy_attr_binding', 'C06_legacy_pred_binding', 'C06_legacy_no_self_attest',
+                       'C06_legacy_tags_mixed_rejected', 'C06_raw_unbound_refuted', 'C06_w3c_attr', 'C06_w3c_pred', 'C06_w3c_values_authenticated'],
+    families=[dict(name='c06u'), dict(name='c06')], default_dir='safety', fam_dir={'c06': 'safety', 'c06u': 'exact'},
+    spec_is_model=['c06u'],
+    fam_theorem={'c06u': 'C06_eval_iff_sat / C06_leaf_spec (eval = declarative Boolean semantics)', 'c06': 'C06_legacy_attr_binding / C06_legacy_pred_binding / C06_w3c_attr / C06_w3c_pred'},
+    rule="unit level (hook on process_operator): random restriction ASTs to depth 3 over 28 tag names (8 metadata tags, attr::..::value/marker for present / unrevealed / absent attributes and malformed variants, junk and $-prefixed tags) x 14 values hitting and missing every metadata field, all operators incl. the unsupported ones, against 5 credential filters (legacy / URI issuers, wrong-length DIDs) x value maps — compared exactly. System level: one fixed valid presentation per round (one- and two-credential, both formats) while only the restriction of one referent (single, unrevealed, group, predicate) varies over 12 templates true and 12 templates false of the serving credential; restriction of the other credential; duplicate referent (F10); restricted self-attested; value restriction met by a forged raw (F15, known finding)." + SYS_RULE,
+    trusted_base=TRUSTED_COMMON + IDEALCL,
+    assumptions=["interpretation fixed in DESIGN §6 C06: a value/marker leaf on an attribute the holder left unrevealed is satisfied; a marker on a revealed attribute compares the value (code behaviour, part of C06_leaf_spec)", "F15 (legacy value restrictions are evaluated on the unauthenticated raw) is a known finding: C06_raw_unbound_refuted"],
+)
+PROPS['C12'] = dict(
+    lean_targets=['AnonModel.Props.C12Legacy', 'AnonModel.Props.C12W3C', 'AnonModel.Props.C12Sites'],
+    required_theorems=['C12_legacy_no_panic', 'C12_w3c_no_panic', 'C12_all_sites_registered', 'C12_no_stale_registration'],
+    families=[dict(name='c12')], default_dir='safety',
+    fam_theorem={'c12': 'C12_legacy_no_panic / C12_w3c_no_panic (the models never produce panic) + C12_all_sites_registered (regenerated table of panicking expressions)'},
+    rule="structure-aware mutations (1-3 per case, 13 kinds: delete / duplicate / re-index / cross-wire referents between the five maps, lengthen / shorten identifiers and proofs, edit identifiers and revocation fields, edit group values, swap proofs) of honest legacy presentations from random request shapes, optionally with a request mutation that steers into restriction / interval branches; W3C: drop / duplicate credentials, swap proof values, wrong purpose, signature proof instead of presentation proof, empty subject, no credentials; each verified under catch_unwind and decided by the model (safety direction; any panic is a violation). Byte level (test, not theorem — the serde/CL parsers are external code): 20 000 (quick) / 400 000 (thorough) mutated and random byte strings derived from one valid document per object type (16 types) fed to serde_json::from_slice of that type and of one other type; a panic is a violation unless its location is the known finding F18 (amcl big-number parser)",
+    trusted_base=TRUSTED_COMMON + IDEALCL + ["tools/extract.py finds every unwrap / expect / unreachable! / panic! / index expression in the non-test code of the anchored files"],
+    not_exhibited_by_model=["the byte-level parsers (serde derive, serde_json, rmp-serde, CL big-number and curve-point parsers) are external code and not modelled: fuzz stream only", "non-termination: the models are total by Lean's termination check; the Rust loops they mirror are bounded iterations over finite collections (by reading)"],
+)
+
+
+def search_C12(lean, workdir, vh):
+    """a panicking expression appeared that is not registered: hammer the verifier with the mutation stream (thorough budget)"""
+    import json, vcheck
+    rc, out, _ = vcheck.sh([vh, 'c12', '--seed', '7', '--tier', 'thorough', '--out', '/dev/null'], timeout=3000)
+    try:
+        s = json.loads(out.strip().split('\n')[-1])
+    except Exception:
+        return None
+    for of in s.get('oracle_failures', []):
+        if 'panick' in of.get('what', '') and 'amcl' not in json.dumps(of.get('case', {}).get('sig', '')):
+            return of
+    return None
